@@ -182,8 +182,10 @@ def main_check(pid, tier, replay=None, out=print):
             violations.append(v)
         if r.get("harness_error"):
             herrs.append("case %s: %s" % (r.get("id"), r["harness_error"][-600:]))
+    # the coverage rules of a property (classes that must be seen, minimum counts) apply to a
+    # whole tier, not to the replay of a single recorded case
     verdict = mod.verdict(tier, counts, classes, len(nontrivial), results) \
-        if hasattr(mod, "verdict") else None
+        if hasattr(mod, "verdict") and not replay else None
     # ---- classify violations
     if not replay:
         clear_replays(pid)
